@@ -196,12 +196,14 @@ def l2_l5(prog, ctx):
     fa = render(g.call_args()[1])
     # the file name is built from parse_dirs[<element>]
     elem = None
-    for c in f.calls(("stpcpy", "strcpy", "snprintf", "combine_strings", "memcpy", "mempcpy", "strlen", "asprintf", "strcat", "strncpy")):
-        if c.within(lp):
-            for a in c.call_args():
-                t = render(a)
-                if t.startswith("parse_dirs["):
-                    elem = t
+    for x in lp.walk():
+        # the layer the name is built from: wherever parse_dirs[..] is read in the loop (a call argument, a list of name parts)
+        if x.k == "ArraySubscriptExpr" and render(x.children[0]) == "parse_dirs":
+            t = render(x)
+            if elem is not None and elem != t:
+                elem = "several (%s, %s)" % (elem, t)
+                break
+            elem = t
     if sh.ok and sh.step < 0 and sh.start == "parse_dirs_count" and sh.cmp == ">" and sh.bound == "0" and elem == "parse_dirs[%s - 1]" % sh.var:
         ctx.ok("L2", "main file searched from the highest layer down", lp.where, "%s, file in %s" % (sh.describe(), elem))
     elif sh.ok and sh.step < 0 and sh.start == "parse_dirs_count - 1" and sh.cmp == ">=" and sh.bound == "0" and elem == "parse_dirs[%s]" % sh.var:
@@ -662,7 +664,7 @@ def l10_l11(prog, ctx):
     else:
         why.append("no equality test of basename(%s) with the basename of a later element's path (strcmp calls compare %s)" % (cur_path, srcs or "nothing of that kind"))
         okm, cutm = cfg.all_paths_cut(mb, lambda lit, b, i: False)
-    unknown_cmp = [c for c in m.calls(("strcmp", "strcoll", "strverscmp")) if c.within(outer0) and not any(x.string_value() is not None for x in c.call_args())]
+    unknown_cmp = [c for c in m.calls(("strcmp", "strcoll", "strverscmp", "memcmp", "strncmp")) if c.within(outer0) and not any(x.string_value() is not None for x in c.call_args())]
     # whatever the form: the search for a namesake among the later elements may only stop early when it found one.  Stopping at
     # the first name that sorts behind the current one assumes a list sorted by name - the history is sorted per directory only.
     for c in m.calls(("strcmp", "strcoll", "strverscmp")):
